@@ -50,6 +50,11 @@ variable {K V VOp A : Type} [LinOrd K] [LinOrd A]
 /-- src/map.rs:77-85 -/
 def init : CMap K V A := ⟨∅, ∅, ∅⟩
 
+/-- the key-level reading of a Map op: an update is an add of its key, a key remove is a remove -/
+def keyOp : MapOp K VOp A → OrswotOp K A
+  | .rm c ks => .rm c ks
+  | .up d k _ => .add d [k]
+
 /-- one key of the loop src/map.rs:411-424 -/
 def rmKey (ops : ValOps V VOp A) (c : VClock A) (e : FMap K (MapEntry V A)) (k : K) : FMap K (MapEntry V A) :=
   match e.get? k with
